@@ -75,19 +75,19 @@ def keywords : List String :=
 
 /-- Skips line continuations (`Lexer::peek_char`) and returns the next character, the number of
     characters up to and including it, and what follows. -/
-def peel : List SChar → Option (Char × Nat × List SChar)
+def peel : List Char → Option (Char × Nat × List Char)
   | [] => none
-  | [a] => some (a.c, 1, [])
+  | [a] => some (a, 1, [])
   | a :: b :: t =>
-    if a.c == '\\' && b.c == '\n' then
+    if a == '\\' && b == '\n' then
       match peel t with
       | some (c, n, r) => some (c, n + 2, r)
       | none => none
-    else some (a.c, 1, b :: t)
+    else some (a, 1, b :: t)
 
 /-- `Lexer::operator`: longest operator at the head (at most three characters), with its length in
     buffer characters (line continuations inside count). -/
-def lexOp (l : List SChar) : Option (List Char × Nat) :=
+def lexOp (l : List Char) : Option (List Char × Nat) :=
   match peel l with
   | none => none
   | some (c1, n1, r1) =>
@@ -106,42 +106,42 @@ inductive QMode | un | sq | dq
 
 /-- Length of the word at the head (`WordLexer::word` with `is_token_delimiter_char`): unquoted text,
     backslash escapes, single and double quotes, line continuations. -/
-def wordLen : QMode → List SChar → Nat
+def wordLen : QMode → List Char → Nat
   | _, [] => 0
   | .un, a :: t =>
-    if a.c == '\\' then
+    if a == '\\' then
       match t with
       | [] => 1
       | _ :: t' => 2 + wordLen .un t'
-    else if isDelim a.c then 0
-    else if a.c == '\'' then 1 + wordLen .sq t
-    else if a.c == '"' then 1 + wordLen .dq t
+    else if isDelim a then 0
+    else if a == '\'' then 1 + wordLen .sq t
+    else if a == '"' then 1 + wordLen .dq t
     else 1 + wordLen .un t
-  | .sq, a :: t => if a.c == '\'' then 1 + wordLen .un t else 1 + wordLen .sq t
+  | .sq, a :: t => if a == '\'' then 1 + wordLen .un t else 1 + wordLen .sq t
   | .dq, a :: t =>
-    if a.c == '"' then 1 + wordLen .un t
-    else if a.c == '\\' then
+    if a == '"' then 1 + wordLen .un t
+    else if a == '\\' then
       match t with
       | [] => 1
       | _ :: t' => 2 + wordLen .dq t'
     else 1 + wordLen .dq t
 
 /-- Is the word closed (no unterminated quote)?  An unterminated quote is a lexer error. -/
-def wordClosed : QMode → List SChar → Bool
+def wordClosed : QMode → List Char → Bool
   | m, [] => m == .un
   | .un, a :: t =>
-    if a.c == '\\' then
+    if a == '\\' then
       match t with
       | [] => true
       | _ :: t' => wordClosed .un t'
-    else if isDelim a.c then true
-    else if a.c == '\'' then wordClosed .sq t
-    else if a.c == '"' then wordClosed .dq t
+    else if isDelim a then true
+    else if a == '\'' then wordClosed .sq t
+    else if a == '"' then wordClosed .dq t
     else wordClosed .un t
-  | .sq, a :: t => if a.c == '\'' then wordClosed .un t else wordClosed .sq t
+  | .sq, a :: t => if a == '\'' then wordClosed .un t else wordClosed .sq t
   | .dq, a :: t =>
-    if a.c == '"' then wordClosed .un t
-    else if a.c == '\\' then
+    if a == '"' then wordClosed .un t
+    else if a == '\\' then
       match t with
       | [] => false
       | _ :: t' => wordClosed .dq t'
@@ -154,41 +154,41 @@ def dollarStarts (c : Char) : Bool :=
 
 /-- `Word::to_string_if_literal` on the word at the head: `some s` iff every unit is an unquoted literal
     character (line continuations vanish). -/
-def wordLit : List SChar → Option (List Char)
+def wordLit : List Char → Option (List Char)
   | [] => some []
   | a :: t =>
-    if a.c == '\\' then
+    if a == '\\' then
       match t with
       | [] => some ['\\']
-      | b :: t' => if b.c == '\n' then wordLit t' else none
-    else if isDelim a.c then some []
-    else if a.c == '\'' || a.c == '"' || a.c == '`' then none
-    else if a.c == '$' then
+      | b :: t' => if b == '\n' then wordLit t' else none
+    else if isDelim a then some []
+    else if a == '\'' || a == '"' || a == '`' then none
+    else if a == '$' then
       match t with
       | [] => some ['$']
-      | b :: _ => if dollarStarts b.c then none else (wordLit t).map ('$' :: ·)
-    else (wordLit t).map (a.c :: ·)
+      | b :: _ => if dollarStarts b then none else (wordLit t).map ('$' :: ·)
+    else (wordLit t).map (a :: ·)
 
 /-- `Assign::try_from`: a non-empty literal prefix followed by an unquoted `=`. -/
-def isAssignAux : Bool → List SChar → Bool
+def isAssignAux : Bool → List Char → Bool
   | _, [] => false
   | seen, a :: t =>
-    if a.c == '\\' then
+    if a == '\\' then
       match t with
       | [] => false
-      | b :: t' => if b.c == '\n' then isAssignAux seen t' else false
-    else if isDelim a.c then false
-    else if a.c == '=' then seen
-    else if a.c == '\'' || a.c == '"' || a.c == '`' then false
-    else if a.c == '$' then
+      | b :: t' => if b == '\n' then isAssignAux seen t' else false
+    else if isDelim a then false
+    else if a == '=' then seen
+    else if a == '\'' || a == '"' || a == '`' then false
+    else if a == '$' then
       match t with
       | [] => false
-      | b :: _ => if dollarStarts b.c then false else isAssignAux true t
+      | b :: _ => if dollarStarts b then false else isAssignAux true t
     else isAssignAux true t
 
-def isAssign (l : List SChar) : Bool :=
+def isAssign (l : List Char) : Bool :=
   match l with
-  | a :: _ => if a.c == '~' then false else isAssignAux false l
+  | a :: _ => if a == '~' then false else isAssignAux false l
   | [] => false
 
 inductive Kind
@@ -204,8 +204,8 @@ structure Tok where
   len : Nat
   deriving Repr
 
-/-- `Lexer::token` at the head of `l` (blanks and comments already skipped). -/
-def lexTok (l : List SChar) : Tok :=
+/-- `Lexer::token` at the head of `l` (blanks and comments already skipped), on plain characters. -/
+def lexTokC (l : List Char) : Tok :=
   match l with
   | [] => { kind := .eof, len := 0 }
   | _ =>
@@ -216,7 +216,7 @@ def lexTok (l : List SChar) : Tok :=
       if !wordClosed .un l then { kind := .bad, len := n } else
       -- `parse_tilde_front`: a leading `~` makes a tilde expansion, not a literal
       let lit := match l with
-        | a :: _ => if a.c == '~' then none else wordLit l
+        | a :: _ => if a == '~' then none else wordLit l
         | [] => none
       match lit with
       | some s =>
@@ -234,19 +234,28 @@ def markLc : List SChar → List SChar
   | l => l
 
 /-- Length of a comment body (up to, not including, the newline). -/
-def commentLen : List SChar → Nat
+def commentLen : List Char → Nat
   | [] => 0
-  | a :: t => if a.c == '\n' then 0 else 1 + commentLen t
+  | a :: t => if a == '\n' then 0 else 1 + commentLen t
 
 /-- `skip_blanks_and_comment`: number of characters skipped (blanks, line continuations, then a comment). -/
-def skipLen : List SChar → Nat
+def skipLenC : List Char → Nat
   | [] => 0
-  | [a] => if isBlank a.c then 1 else if a.c == '#' then 1 else 0
+  | [a] => if isBlank a then 1 else if a == '#' then 1 else 0
   | a :: b :: t =>
-    if isBlank a.c then 1 + skipLen (b :: t)
-    else if a.c == '\\' && b.c == '\n' then 2 + skipLen t
-    else if a.c == '#' then 1 + commentLen (b :: t)
+    if isBlank a then 1 + skipLenC (b :: t)
+    else if a == '\\' && b == '\n' then 2 + skipLenC t
+    else if a == '#' then 1 + commentLen (b :: t)
     else 0
+
+/-- the characters of a buffer segment (origins dropped) -/
+def chars (l : List SChar) : List Char := l.map (·.c)
+
+/-- `Lexer::token` on buffer characters: tokenisation looks at the character values only. -/
+def lexTok (l : List SChar) : Tok := lexTokC (chars l)
+
+/-- `skip_blanks_and_comment` on buffer characters. -/
+def skipLen (l : List SChar) : Nat := skipLenC (chars l)
 
 /-! ### Position automaton: which `take_token_*` the parser uses next -/
 
